@@ -285,7 +285,7 @@ pub struct CliOpts {
 pub fn case(d: &mut Draw, opts: &CliOpts) -> Outcome {
     let p: Project = g::generate(d, opts.thorough);
     let files = g::files(&p);
-    let backend = match d.weighted(&[7, 2, 1]) {
+    let backend = match d.weighted(&[6, 2, 2]) {
         0 => None,
         1 => Some("cranelift"),
         _ => Some("interpret"),
@@ -304,7 +304,10 @@ pub fn case(d: &mut Draw, opts: &CliOpts) -> Outcome {
     // ---- the schedule of runs --------------------------------------------
     let mut runs: Vec<RunCfg> = Vec::new();
     runs.push(RunCfg { cpus: pick_cpus(d, 1, total), timings: Timings::Remove, seed, label: "1cpu/no-history".into() });
-    runs.push(RunCfg { cpus: (0..total).collect(), timings: Timings::Keep, seed, label: format!("{total}cpu/recorded") });
+    if opts.thorough {
+        // the history the first run recorded, as a second invocation by a user would see it
+        runs.push(RunCfg { cpus: (0..total).collect(), timings: Timings::Keep, seed, label: format!("{total}cpu/recorded") });
+    }
     let extra = if opts.thorough { 9 } else { 4 };
     for k in 0..extra {
         let ncpu = match k % 4 {
